@@ -355,6 +355,14 @@ impl<H: Host> ZXController<H> {
         }
     }
 
+    /// Sets paging latch to `val` regardless of a previous lock. Used when whole
+    /// machine state is replaced from outside (snapshot loading): lock bit of the
+    /// machine which was running before must not block restoring of the saved latch
+    pub fn restore_7ffd(&mut self, val: u8) {
+        self.paging_enabled = self.machine == ZXMachine::Sinclair128K;
+        self.write_7ffd(val);
+    }
+
     pub fn read_7ffd(&self) -> u8 {
         self.current_port_7ffd
     }
